@@ -15,10 +15,25 @@ import json, os
 import vlib
 
 
+SHIM = os.path.join(vlib.VERIF, "harness", "cmd", "life", "testdata", "conns_shim.go")
+
+
+def overlay(ctx):
+    """the server's registry of connections is not exported: one accessor is added to package imapserver at build
+    time (go build -overlay); nothing is written into the repository"""
+    target = os.path.join(vlib.REPO, "imapserver", "zz_verif_conns.go")
+    if os.path.exists(target):
+        raise vlib.Infra("%s exists in the repository; the overlay file name is taken" % target)
+    p = os.path.join(ctx.scratch, "life-overlay.json")
+    with open(p, "w") as fh:
+        json.dump({"Replace": {target: SHIM}}, fh)
+    return p
+
+
 def run(ctx):
     quick = ctx.tier == "quick"
     r = ctx.tlc_ok("ServerLife", "ServerLife_mc.cfg", timeout=600)
-    binp = ctx.build("life")
+    binp = ctx.build("life", overlay=overlay(ctx))
     ok1, tr1, s1 = vlib.record_and_validate(ctx, binp, ["cuts", "-stride", 3 if quick else 1, "-seed", ctx.seed],
                                             "ServerLifeTrace", "ServerLifeTrace.cfg", name="life-cuts.ndjson", timeout=1800)
     ok2, tr2, s2 = vlib.record_and_validate(ctx, binp, ["fuzz", "-n", 4000 if quick else 60000, "-seed", ctx.seed],
@@ -54,7 +69,7 @@ def replay(ctx, path):
         return
     p = os.path.join(ctx.scratch, "case.json")
     json.dump(rp, open(p, "w"))
-    binp = ctx.build("life")
+    binp = ctx.build("life", overlay=overlay(ctx))
     tr = os.path.join(ctx.scratch, "one.ndjson")
     recs, _, _ = ctx.harness(binp, ["one", p, tr])
     for r in recs:
